@@ -313,5 +313,11 @@ def _run_landscape(case):
         # ties: accept any maximal cell
         tol = 1.0 / ups + (0.5 if mname == "FSC" else 0.1) + 1e-6
         if np.abs(peak - np.asarray(res.shift)).max() > tol:
-            viol.append((sig("argmax-vs-align"), f"planted d={d.tolist()}: landscape {lds.shape} peaks at shift {peak.tolist()} but align reports {np.round(res.shift, 3).tolist()}"))
+            # a flat ridge sampled on a coarse grid can have its discrete arg-max more than a sample away from the continuous one:
+            # the reported displacement must then at least be a maximiser in value (within 2 % of the landscape's range)
+            idx = np.clip(np.round(centre + np.asarray(res.shift, dtype=np.float64) * ups).astype(int), 0, np.asarray(lds.shape) - 1)
+            at_shift = float(lds[tuple(idx)])
+            rng_ = float(lds.max() - lds.min())
+            if lds.max() - at_shift > 0.02 * rng_:
+                viol.append((sig("argmax-vs-align"), f"planted d={d.tolist()}: landscape {lds.shape} peaks at shift {peak.tolist()} but align reports {np.round(res.shift, 3).tolist()} (landscape there is {100 * (lds.max() - at_shift) / max(rng_, 1e-30):.1f} % of its range below the maximum)"))
     return {"nontrivial": bool(np.any(d != 0)), "outcome": f"landscape|{mname}|{'viol' if viol else 'ok'}", "viol": viol}
